@@ -896,6 +896,7 @@ func InfoOf(c *ssa.CallCommon) CallInfo {
 	case *ssa.Builtin:
 		return CallInfo{Name: v.Name(), Builtin: true}
 	case *ssa.Function:
+		v = Generic(v)
 		ci := CallInfo{Name: v.Name(), Static: v}
 		if fo, ok := v.Object().(*types.Func); ok {
 			if a, ok := FuncAlias[fo]; ok {
@@ -946,6 +947,18 @@ func RecvName(fn *ssa.Function) string {
 		return ""
 	}
 	return nt.Obj().Name()
+}
+
+// Generic sees through the synthetic instantiation wrapper go/ssa puts in front
+// of a generic function (f[T] called with a concrete T): the wrapper only
+// re-types its arguments and calls the generic body, parameter for parameter.
+func Generic(fn *ssa.Function) *ssa.Function {
+	if fn != nil && strings.HasPrefix(fn.Synthetic, "instantiation wrapper") {
+		if o := fn.Origin(); o != nil {
+			return o
+		}
+	}
+	return fn
 }
 
 // CallOf returns the CallCommon of instr if it is a call, go or defer.
